@@ -64,7 +64,7 @@ class Prop(common.PropertyCheck):
             "amplifier_gain, resolution absent / explicit / lists with None entries (taken from file) x malformed length combinations. "
             "Non-trivial = distinct (container, channel form, override pattern, law mix, outcome).")
     batch_size = 150
-    assumptions = ["the two amplifier laws are evaluated by NumPy/libm; selection logic is compared exactly (bitwise replay of the chosen laws), the law value within 1e-13 relative of a 60-digit decimal evaluation (the float exponent a0/r*x carries rounding error amplified by ln10*exponent)"]
+    assumptions = ["the two amplifier laws are evaluated by NumPy/libm; selection logic is compared exactly (bitwise replay of the chosen laws), the law value within 1e-15*(10+10|exponent|) relative of a 60-digit decimal evaluation (the float exponent a0/r*x carries rounding error amplified by ln10*exponent)"]
 
     def gen_cases(self):
         rng = self.rng
@@ -253,7 +253,9 @@ class Prop(common.PropertyCheck):
                     want = float(Decimal(x) / Decimal(law[1]))
                 else:
                     want = float(Decimal(law[2]) * (Decimal(10) ** (Decimal(law[1]) / Decimal(law[3]) * Decimal(x))))
-                if ulps(want, y) > 4 and abs(want - y) > 1e-13 * abs(want):
+                # the float exponent a0/r*x carries ~2 roundings, amplified by ln(10)*|exponent| in the result
+                expo = abs(law[1] / law[3] * x) if law[0] == 'log' else 0.0
+                if ulps(want, y) > 4 and abs(want - y) > 1e-15 * (10 + 10 * expo) * abs(want):
                     return 'channel %d event %d: got %r, the %s law gives %r (params %s)' % (c, r, y, law[0], want, law[1:])
         if len(impl['out']) != len(impl['in']):
             return 'number of events changed'
